@@ -668,6 +668,56 @@ fn main() {
         ("[.html.txt]", Some(vec![".html.txt"])),
     ];
     let orders = ["autoescape_on-before-adding", "autoescape_on-after-adding", "autoescape_on-between-two-adds"];
+    // ---------------------------------------------------------------- on-the-fly templates including registered ones
+    // "by name suffix or by API flag": the flag given to render_str / one_off is the setting of the
+    // template compiled on the fly - every registered template it includes keeps its own, by suffix
+    // (seeded change C01-9 made the per-call flag override the included templates' setting).
+    run.family(
+        Family::new(
+            "render_str-includes-registered",
+            8,
+            "render_str / Tera::one_off with autoescape = true / false x a template compiled on the fly that prints the datum and includes row.html (on by suffix) and note.txt (off by suffix), directly, through a second include and inside a capture: every print follows the setting of the template it is written in",
+        ),
+        |item, acc: &mut Acc| {
+            let flag = item & 1 == 1;
+            let shape = (item >> 1) as usize;
+            let d = "<&>";
+            let esc = "&lt;&amp;&gt;";
+            let mut t = Tera::default();
+            let tpls = vec![
+                ("row.html".to_string(), "h({{ v }})".to_string()),
+                ("note.txt".to_string(), "t({{ v }})".to_string()),
+                ("viahtml.html".to_string(), "H[{{ v }}{% include \"note.txt\" %}]".to_string()),
+                ("viatxt.txt".to_string(), "T[{{ v }}{% include \"row.html\" %}]".to_string()),
+            ];
+            engine::add_templates(&mut t, &tpls);
+            let own = if flag { esc } else { d };
+            let (src, want): (&str, String) = match shape {
+                0 => ("o({{ v }}){% include \"row.html\" %}{% include \"note.txt\" %}", format!("o({own})h({esc})t({d})")),
+                1 => ("o({{ v }}){% include \"viahtml.html\" %}{% include \"viatxt.txt\" %}", format!("o({own})H[{esc}t({d})]T[{d}h({esc})]")),
+                2 => ("{% for i in [1] %}{% include \"note.txt\" %}{% include \"row.html\" %}{% endfor %}o({{ v }})", format!("t({d})h({esc})o({own})")),
+                _ => ("{% if true %}{% include \"row.html\" %}{% endif %}|{{ v }}|{% include \"note.txt\" %}", format!("h({esc})|{own}|t({d})")),
+            };
+            let ctx = vals::context(&[("v", &V::s(d))]);
+            let case = |api: &str| json!({"api": api, "autoescape": flag, "source": src, "registered": tpls, "v": d});
+            let out = engine::render_str(&t, src, &ctx, flag);
+            if out.ok() != Some(want.as_str()) {
+                acc.violation(
+                    format!("mixed-mode:render_str({flag})"),
+                    format!("render_str(.., autoescape={flag}) gave {}, expected {want:?}: every print follows the setting of its own template", out.show()),
+                    || case("render_str"),
+                );
+            }
+            acc.case(true, out.class());
+            // Tera::one_off has no registry: the same source without includes
+            let one = engine::to_out(engine::guarded(|| Tera::one_off("o({{ v }})", &ctx, flag)));
+            if one.ok() != Some(format!("o({own})").as_str()) {
+                acc.violation(format!("mixed-mode:one_off({flag})"), format!("one_off(.., autoescape={flag}) gave {}", one.show()), || case("one_off"));
+            }
+            acc.case(true, one.class());
+        },
+    );
+
     let n_suffix_items = (names.len() * suffix_sets.len() * orders.len()) as u64;
     run.family(
         Family::new(
